@@ -26,6 +26,7 @@ func isBoolVisitorType(t types.Type) bool {
 
 func checkC08(c *Ctx) {
 	l := c.L
+	checkWorkingIterationMerges(c, "DOM-working-iteration")
 	checkSnapshotFlags(c, "FLOW-snapshot-flags")
 	checkIteratorAccessorsPure(c, "PURE-iterator-accessors")
 	c.rule("ORDER-stop-means-stop", "a true result of the visitor ends the iteration", 7)
@@ -1268,5 +1269,77 @@ func checkSnapshotFlags(c *Ctx, rule string) {
 	}
 	if n < 4 {
 		c.anchorMissing(rule, "fewer than 4 ImmutableTree literals with a nodeDB")
+	}
+}
+
+// checkWorkingIterationMerges (shared by C08, C07, C01): when the index is
+// enabled, MutableTree.Iterate / Iterator serve the working state through the
+// iterator that merges the overlay of uncommitted changes — unconditionally.
+// "The working tree looks clean" (its root carries a node key) does not mean
+// the overlay is empty: a removal that leaves an already stored subtree as the
+// root changes the contents without creating an unsaved root.
+func checkWorkingIterationMerges(c *Ctx, rule string) {
+	l := c.L
+	c.rule(rule, "with the index enabled the working state is iterated through the overlay merge only", 2)
+	enabled := l.Func("", "*ImmutableTree.IsFastCacheEnabled")
+	if enabled == nil {
+		enabled = l.Func("", "*MutableTree.IsFastCacheEnabled")
+	}
+	plain := map[*ssa.Function]bool{}
+	for _, nm := range []string{"*ImmutableTree.Iterate", "*ImmutableTree.Iterator", "*ImmutableTree.IterateRange", "*ImmutableTree.IterateRangeInclusive", "NewFastIterator", "NewIterator"} {
+		if f := l.Func("", nm); f != nil {
+			plain[f] = true
+		}
+	}
+	for _, nm := range []string{"*MutableTree.Iterate", "*MutableTree.Iterator"} {
+		fn := l.Func("", nm)
+		if fn == nil || len(plain) < 4 {
+			c.anchorMissing(rule, nm)
+			continue
+		}
+		var gs []guard
+		for _, b := range fn.Blocks {
+			iff := ifOf(b)
+			if iff == nil {
+				continue
+			}
+			ex, ok := stripTrivial(iff.Cond).(*ssa.Extract)
+			if !ok || ex.Index != 0 {
+				continue
+			}
+			call, ok := ex.Tuple.(*ssa.Call)
+			if !ok {
+				continue
+			}
+			if f := staticCallee(&call.Call); f != nil && f.Name() == "IsFastCacheEnabled" {
+				gs = append(gs, guard{iff, 0})
+			}
+		}
+		if len(gs) == 0 {
+			c.bad(rule, l.fname(fn)+" decides on IsFastCacheEnabled", l.pos(fn.Pos()), "no branch on IsFastCacheEnabled()")
+			continue
+		}
+		var bad ssa.Instruction
+		for _, g := range gs {
+			searchFrom([]point{blockStart(g.iff.Block().Succs[g.pass])}, func(in ssa.Instruction) bool {
+				if cc := callCommon(in); cc != nil {
+					if f := staticCallee(cc); f != nil && plain[f] && bad == nil {
+						bad = in
+					}
+				}
+				return false
+			})
+		}
+		pos := l.pos(fn.Pos())
+		if bad != nil {
+			pos = l.ipos(bad)
+		}
+		c.decide(rule, l.fname(fn)+": index enabled ⇒ overlay merge", pos, bad == nil, "no plain iterator or tree-walk fallback is reachable from the index-enabled edge",
+			"with the index enabled a path reaches a plain iterator ("+func() string {
+				if bad != nil {
+					return l.calleeName(bad)
+				}
+				return ""
+			}()+") instead of the overlay merge: a second condition (e.g. `the root carries a node key`) is taken for `no uncommitted changes`, but a removal that leaves a stored subtree as the root has changed the contents — the iterator shows removed keys")
 	}
 }
